@@ -22,7 +22,7 @@ PREDS = ["all", "parity", "none", "one", "card", "reads-model"]
 
 def FLOORS(tier):
     q = tier == "quick"
-    f = {"ties>=2-minimisers": 300 if q else 10000, "constant-model": 40, "empty-model": 10, "nothing-valid": 100, "nothing-valid-answers-checked": 50, "infinite-constant": 40,
+    f = {"ties>=2-minimisers": 300 if q else 10000, "constant-model": 40, "empty-model": 10, "nothing-valid": 100, "nothing-valid-answers-checked": 50, "infinite-constant": 40, "infinite-term": 30,
          "method-calls": 400 if q else 10000, "valid-predicate-calls": 10000 if q else 5 * 10 ** 5, "with-offset": 300,
          "method:PCBO-with-constraints": 20, "stale-model": 50, "huge-offset": 100, "valid-argument-omitted": 100,
          "free-function-on-constrained-model": 15, "typed-coefficients": 100, "second-call-after-result-edited": 300,
@@ -70,9 +70,38 @@ def infinite_wall(ctx, rng):
         ctx.violation("solution-malformed:infinite", "reported %r for variables %r" % (sol, tv), w)
 
 
+def infinite_term(ctx, rng):
+    """a hard wall on one boolean variable (coefficient +inf): assignments that switch it on cost inf, the others are ordinary"""
+    inf = float("inf")
+    labs = gen.labels(rng, rng.randint(2, 3), matrix=rng.random() < 0.5)
+    a = labs[0]
+    D = {tuple(gen.sort_labels(k)): v for k, v in gen.rand_terms(rng, labs[1:], 2, lo=1, hi=3).items() if k}
+    D[(a,)] = inf
+    if rng.random() < 0.5:
+        D[tuple(gen.sort_labels((a, labs[1])))] = rng.choice([-2, 1])
+    fname = FUNCS[("bool", rng.random() < 0.5)]
+    tv = sorted({x for k in D for x in k}, key=repr)
+    w = {"function": fname, "terms": dict(D), "class": "infinite coefficient on a variable"}
+    ok, res = ctx.call(fname, getattr(L.utils, fname), D, _w=w)
+    if not ok:
+        return
+    ctx.cat("infinite-term")
+    best = None
+    for bits in itertools.product((0, 1), repeat=len(tv)):
+        x = dict(zip(tv, bits))
+        v = sum(c for k, c in D.items() if all(x[i] for i in k))
+        best = v if best is None or v < best else best
+    obj, sol = res
+    if obj != best or obj != obj:
+        ctx.violation("wrong-objective:infinite-term", "reported objective %r, minimum %r" % (obj, best), w)
+
+
 def case(ctx, rng, idx):
-    if rng.random() < 0.01:
+    r00 = rng.random()
+    if r00 < 0.01:
         return infinite_wall(ctx, rng)
+    if r00 < 0.018:
+        return infinite_term(ctx, rng)
     kind = rng.choice(["bool", "spin"])
     vals = (0, 1) if kind == "bool" else (1, -1)
     tn = rng.choice(["dict"] + L_TYPES[kind])
